@@ -242,7 +242,14 @@ def specProgram (prop : String) (c : Cfg) (ws : List Watcher) (_init : List Int)
           | [Item.stmt "updateCtx" _ _ _ _ _ _ ch .ok] =>
             if countCalls 100000 ch != 0 then none else
             -- the first group of key nodes lists the keys with the values held before
-            (ch.takeWhile (fun (it : Item) => match it with | Item.stmt "key" .. => true | _ => false)).findSome?
+            -- (keys are distinct within the update: a repeated parameter starts the restore group)
+            let keys := ch.takeWhile (fun (it : Item) => match it with | Item.stmt "key" .. => true | _ => false)
+            let first := (keys.foldl (fun (acc : List Nat × List Item × Bool) (it : Item) =>
+              match it with
+              | Item.stmt _ p .. => if acc.2.2 || acc.1.contains p then (acc.1, acc.2.1, true)
+                                    else (p :: acc.1, acc.2.1 ++ [it], false)
+              | _ => acc) ([], [], false)).2.1
+            first.findSome?
               fun (it : Item) => match it with
                 | Item.stmt "key" p old _ _ _ _ _ _ =>
                   if p < c.nparams && !c.isEvent p && st.vals.getD p 0 != old then
